@@ -28,6 +28,11 @@ type Env struct {
 	skRoot string // identity of the clause instance being translated (stable skolem names)
 	skCnt  *int
 	callee bool // environment of a CALLEE's contract (its locals are not this function's)
+	// instCtx: the instantiation context of the sub-formula being translated
+	// (the candidate terms chosen for the enclosing instantiated quantifiers
+	// and the spec calls entered), so that skolem constants get names that do
+	// not depend on how many candidates there were
+	instCtx string
 }
 
 type exprError struct{ msg string }
@@ -82,6 +87,12 @@ func (t *FnTrans) Formula(f Formula, pol bool) (term string, err error) {
 	cnt := 0
 	env := *f.Env
 	env.skRoot = fmt.Sprintf("%p/%p", f.Clause, f.Env)
+	if pol {
+		// a goal is the only goal of its query: its skolem constants can be
+		// shared by all instances of the clause (one per quantifier occurrence),
+		// which keeps the set of instantiation candidates small
+		env.skRoot = fmt.Sprintf("%p/goal", f.Clause)
+	}
 	env.skCnt = &cnt
 	if f.Env.old == f.Env {
 		env.old = &env
@@ -137,6 +148,8 @@ func (e *Env) formula(x ast.Expr, pol bool) string {
 				return e.quant(n, id.Name == "forall", pol)
 			case "forallstr":
 				return e.quantStr(n, pol)
+			case "forallkey", "existskey":
+				return e.quantKey(n, id.Name == "forallkey", pol)
 			case "old":
 				e.nargs(n, 1)
 				return e.old.formula(n.Args[0], pol)
@@ -209,8 +222,7 @@ func (e *Env) quant(n *ast.CallExpr, isForall bool, pol bool) string {
 		// stable skolem constant per quantifier occurrence of this clause instance
 		key := ""
 		if e.skCnt != nil {
-			*e.skCnt++
-			key = fmt.Sprintf("%s#%d", e.skRoot, *e.skCnt)
+			key = fmt.Sprintf("%s#%d@%s", e.skRoot, n.Pos(), e.instCtx)
 		}
 		sk, ok := t.skCache[key]
 		if !ok || key == "" {
@@ -236,7 +248,12 @@ func (e *Env) quant(n *ast.CallExpr, isForall bool, pol bool) string {
 	cands := t.candidates(lo, hi)
 	var parts []string
 	for _, c := range cands {
-		body := e.with(map[string]Val{id.Name: scalar(intT, c)}).formula(n.Args[3], pol)
+		ce := e.with(map[string]Val{id.Name: scalar(intT, c)})
+		ce.instCtx = e.instCtx + "|" + c
+		if ce.old != nil && ce.old != ce {
+			ce.old.instCtx = ce.instCtx
+		}
+		body := ce.formula(n.Args[3], pol)
 		if isForall {
 			parts = append(parts, implies(inRange(c), body))
 		} else {
@@ -263,8 +280,7 @@ func (e *Env) quantStr(n *ast.CallExpr, pol bool) string {
 	if pol {
 		key := ""
 		if e.skCnt != nil {
-			*e.skCnt++
-			key = fmt.Sprintf("%s#%d", e.skRoot, *e.skCnt)
+			key = fmt.Sprintf("%s#%d@%s", e.skRoot, n.Pos(), e.instCtx)
 		}
 		sk, ok := t.skCache[key]
 		if !ok || key == "" {
@@ -283,9 +299,114 @@ func (e *Env) quantStr(n *ast.CallExpr, pol bool) string {
 	sortStrings(ks)
 	var parts []string
 	for _, c := range ks {
-		parts = append(parts, e.with(map[string]Val{id.Name: scalar(strT, c)}).formula(n.Args[1], pol))
+		ce := e.with(map[string]Val{id.Name: scalar(strT, c)})
+		ce.instCtx = e.instCtx + "|" + c
+		if ce.old != nil && ce.old != ce {
+			ce.old.instCtx = ce.instCtx
+		}
+		parts = append(parts, ce.formula(n.Args[1], pol))
 	}
 	return and(parts...)
+}
+
+// forallkey(k, T, body) / existskey(k, T, body): quantification over all values
+// of a scalar key type T (map keys).  Skolemised where the quantifier is a
+// universal goal / existential hypothesis; otherwise instantiated at the key
+// terms of that sort the function and its contract use (map look-ups, updates,
+// deletes, keys produced by ranges, key skolems).
+func (e *Env) quantKey(n *ast.CallExpr, isForall bool, pol bool) string {
+	e.nargs(n, 3)
+	id, ok := n.Args[0].(*ast.Ident)
+	if !ok {
+		e.fail("first argument of forallkey/existskey must be an identifier")
+	}
+	t := e.t
+	var ty types.Type
+	if tid, ok := n.Args[1].(*ast.Ident); ok {
+		if bt, ok := convNames[tid.Name]; ok {
+			ty = bt
+		}
+	}
+	if ty == nil {
+		ty = e.namedType(n.Args[1])
+	}
+	if ty == nil || t.mode.scalarSort(ty) == "" {
+		e.fail("forallkey/existskey: %s is not a scalar type", exprString(n.Args[1]))
+	}
+	ks := t.mode.scalarSort(ty)
+	if isForall == pol {
+		key := ""
+		if e.skCnt != nil {
+			key = fmt.Sprintf("%s#%d@%s", e.skRoot, n.Pos(), e.instCtx)
+		}
+		sk, ok := t.skCache[key]
+		if !ok || key == "" {
+			sk = t.declare(t.fresh("skk."+id.Name), ks)
+			if key != "" {
+				t.skCache[key] = sk
+			}
+		}
+		if t.keyTerms == nil {
+			t.keyTerms = map[string]map[string]bool{}
+		}
+		if t.keyTerms[ks] == nil {
+			t.keyTerms[ks] = map[string]bool{}
+		}
+		t.keyTerms[ks][sk] = true
+		if ks == "Str" {
+			t.strTerms[sk] = true
+		}
+		v := scalar(ty, sk)
+		body := e.with(map[string]Val{id.Name: v}).formula(n.Args[2], pol)
+		if t.mode.isInt() {
+			if w, s, isInt := intInfo(ty); isInt {
+				if isForall {
+					return implies(rangeInt(sk, w, s), body)
+				}
+				return and(rangeInt(sk, w, s), body)
+			}
+		}
+		return body
+	}
+	var cs []string
+	for c := range t.keyTerms[ks] {
+		cs = append(cs, c)
+	}
+	if ks == "Str" {
+		for c := range t.strTerms {
+			if !t.keyTerms[ks][c] {
+				cs = append(cs, c)
+			}
+		}
+	}
+	sortStrings(cs)
+	// skolem constants and keys produced by ranges first: they are the terms
+	// goals and loop bodies talk about
+	var first, rest []string
+	for _, c := range cs {
+		if strings.HasPrefix(c, "sk") || strings.HasPrefix(c, "next.") {
+			first = append(first, c)
+		} else {
+			rest = append(rest, c)
+		}
+	}
+	cs = append(first, rest...)
+	if len(cs) > t.W.maxCands {
+		cs = cs[:t.W.maxCands]
+	}
+	var parts []string
+	for _, c := range cs {
+		ce := e.with(map[string]Val{id.Name: scalar(ty, c)})
+		ce.instCtx = e.instCtx + "|" + c
+		if ce.old != nil && ce.old != ce {
+			ce.old.instCtx = ce.instCtx
+		}
+		parts = append(parts, ce.formula(n.Args[2], pol))
+	}
+	if isForall {
+		return and(parts...)
+	}
+	return or(parts...)
 }
 
 func (t *FnTrans) candidates(lo, hi string) []string {
@@ -350,11 +471,11 @@ func (e *Env) specEnv(sp *SpecFn, n *ast.CallExpr) *Env {
 		}
 		vars[p.Name] = v
 	}
-	ne := &Env{t: e.t, st: e.st, vars: vars, pkg: e.t.W.pkgByPath(sp.Pkg, e.pkg), guard: e.guard, depth: e.depth + 1, skRoot: e.skRoot, skCnt: e.skCnt}
+	ne := &Env{t: e.t, st: e.st, vars: vars, pkg: e.t.W.pkgByPath(sp.Pkg, e.pkg), guard: e.guard, depth: e.depth + 1, skRoot: e.skRoot, skCnt: e.skCnt, instCtx: fmt.Sprintf("%s/%s@%d", e.instCtx, sp.Name, n.Pos())}
 	if e.old == e {
 		ne.old = ne
 	} else if e.old != nil {
-		ne.old = &Env{t: e.t, st: e.old.st, vars: vars, pkg: ne.pkg, guard: e.guard, depth: e.depth + 1, skRoot: e.skRoot, skCnt: e.skCnt}
+		ne.old = &Env{t: e.t, st: e.old.st, vars: vars, pkg: ne.pkg, guard: e.guard, depth: e.depth + 1, skRoot: e.skRoot, skCnt: e.skCnt, instCtx: ne.instCtx}
 		ne.old.old = ne.old
 	}
 	return ne
@@ -902,6 +1023,97 @@ func (e *Env) call(n *ast.CallExpr) Val {
 				e.fail("samebase needs slices")
 			}
 			return scalar(bt, and(eq(a.Sub[0].S, b.Sub[0].S), eq(a.Sub[1].S, b.Sub[1].S)))
+		case "allocated":
+			// allocated(x): the reference x denotes nil or an object that exists now
+			// (it lies at or below the allocation frontier), so anything allocated
+			// from here on is a different object
+			e.nargs(n, 1)
+			v := e.eval(n.Args[0])
+			ref := ""
+			switch v.K {
+			case VScalar:
+				ref = v.S
+			case VSlice:
+				ref = v.Sub[0].S
+			default:
+				e.fail("allocated() needs a reference")
+			}
+			if !t.declSet["ALLOC0"] {
+				t.declare("ALLOC0", "Int")
+				t.assume("true", sx(">", "ALLOC0", "0"), "allocation frontier is above nil")
+			}
+			fr := sx("select", t.heapGet(e.st, "G.ALLOCF", arraySort("Int", "Int")), "0")
+			// the frontier never lies below ALLOC0 (it starts there and only moves up)
+			t.assume("true", sx(">=", fr, "ALLOC0"), "allocation frontier is at or above its entry value")
+			return scalar(bt, sx("<=", ref, fr))
+		case "untainted":
+			// untainted(N): no insertion went into the map that loop N ranges over since its range started
+			e.nargs(n, 1)
+			lit, ok := n.Args[0].(*ast.BasicLit)
+			if !ok {
+				e.fail("untainted(N): N must be a loop ordinal literal")
+			}
+			ord, _ := strconv.Atoi(lit.Value)
+			var rg *ssa.Range
+			for _, li := range t.loops {
+				if li.ordinal != ord {
+					continue
+				}
+				for _, in := range li.header.Instrs {
+					if nx, ok := in.(*ssa.Next); ok {
+						if r, ok := nx.Iter.(*ssa.Range); ok {
+							rg = r
+						}
+					}
+				}
+			}
+			if rg == nil {
+				e.fail("untainted(%d): loop %d is not a range over a map", ord, ord)
+			}
+			comp, _, _, has := t.rangeVisited(rg)
+			if !has {
+				e.fail("untainted(%d): unsupported key type", ord)
+			}
+			tcomp := strings.Replace(comp, "G.V.", "G.VT.", 1)
+			return scalar(bt, not(sx("select", t.heapGet(e.st, tcomp, arraySort("Int", "Bool")), "0")))
+		case "visited":
+			// visited(N, k): has the range over a map that drives loop N produced key k so far?
+			e.nargs(n, 2)
+			lit, ok := n.Args[0].(*ast.BasicLit)
+			if !ok {
+				e.fail("visited(N, key): N must be a loop ordinal literal")
+			}
+			ord, _ := strconv.Atoi(lit.Value)
+			var rg *ssa.Range
+			for _, li := range t.loops {
+				if li.ordinal != ord {
+					continue
+				}
+				for _, in := range li.header.Instrs {
+					if nx, ok := in.(*ssa.Next); ok {
+						if r, ok := nx.Iter.(*ssa.Range); ok {
+							rg = r
+						}
+					}
+				}
+			}
+			if rg == nil {
+				dbg := ""
+				for _, li := range t.loops {
+					dbg += fmt.Sprintf(" [loop %d header b%d]", li.ordinal, li.header.Index)
+				}
+				e.fail("visited(%d, ..): loop %d is not a range over a map;%s", ord, ord, dbg)
+			}
+			comp, srt, _, has := t.rangeVisited(rg)
+			if !has {
+				e.fail("visited(%d, ..): unsupported key type", ord)
+			}
+			mt := rg.X.Type().Underlying().(*types.Map)
+			k := t.materialize(e.eval(n.Args[1]), mt.Key())
+			if k.K != VScalar {
+				e.fail("visited: key is not a scalar")
+			}
+			return scalar(bt, sx("select", t.heapGet(e.st, comp, srt), k.S))
 		case "disjoint":
 			// disjoint(a, b): two slices live in different backing arrays
 			e.nargs(n, 2)
